@@ -82,6 +82,7 @@ RANDOM_CFGS = {
                     dict(prios=(0,), filters=(1, 1, 2, 3), tags=(0, 0, 1)), 1, False),
     "r_buffer_fifo": (dict(kind="buffer", mode="FIFO", cap=4, fdelay=1, transit=0, trig=0), dict(delays=(0, 1, 3)), 2, True),
     "r_buffer_lifo": (dict(kind="buffer", mode="LIFO", cap=3, fdelay=1, transit=0, trig=0), dict(delays=(0, 2)), 2, True),
+    "r_buffer_gen": (dict(kind="buffer", mode="FIFO", cap=2, fdelay=1, transit=0, trig=0, delay_kind="generator"), dict(delays=(0, 1, 4, 2)), 2, True),
     "r_fleet": (dict(kind="fleet", mode="FIFO", cap=3, fdelay=3, transit=1, trig=0), {}, 2, True),
     "r_fleet_t0": (dict(kind="fleet", mode="FIFO", cap=4, fdelay=2, transit=0, trig=0), dict(prios=(0, 1)), 2, False),
     "b_conveyor_acc": (dict(kind="conveyor", mode="FIFO", cap=3, fdelay=1, transit=0, trig=0, slot=2, acc=1), {}, 2, True),
